@@ -207,10 +207,10 @@ def single_violation(combo, wrap):
     return fixable
 
 
-def templates():
+def templates(tier='quick'):
     # ---- default order / bare star / duplicate across kinds (def and lambda): every list of <=4 items with exactly one violation
     P = ['a', 'a=1', 'b', 'b=2', 'c=3', '/', '*', '*v', 'k', 'k=4', '**w']
-    for n in (1, 2, 3, 4):
+    for n in ((1, 2, 3, 4) if tier == 'quick' else (1, 2, 3, 4, 5)):
         for combo in itertools.product(P, repeat=n):
             if not single_violation(combo, lambda c: 'def f(%s): pass\n' % ', '.join(c)):
                 continue
@@ -222,7 +222,7 @@ def templates():
                 yield 'duplicate-parameter', text, 0, hi, sig
     # ---- call arguments
     Aset = ['a', 'k=1', 'k=2', 'j=3', '*s', '**d', 'a for a in b']
-    for n in (1, 2, 3):
+    for n in ((1, 2, 3) if tier == 'quick' else (1, 2, 3, 4, 5)):
         for combo in itertools.product(Aset, repeat=n):
             if not single_violation(combo, lambda c: 'f(%s)\n' % ', '.join(c)):
                 continue
@@ -353,7 +353,7 @@ def run(tier, seed):
     t0 = time.time()
     d = 1 if tier == 'quick' else 2
     jobs = [('corpus', g, d) for g in K.group_shards(K.shards_for(d, 'file'), 200 if tier == 'thorough' else 48)]
-    jobs += [('templates', ch) for ch in X.chunks(templates(), 6000)]
+    jobs += [('templates', ch) for ch in X.chunks(templates(tier), 6000)]
     jobs += [('indents', ch) for ch in X.chunks(indent_cases(tier), 6000)]
     n = 4 if tier == 'quick' else 5
     jobs += [('numbers', n, s) for s in X.prefix_shards(c06.NUM_SIGMA, n, 1)]
@@ -368,9 +368,9 @@ def run(tier, seed):
     total.nontrivial = total.validated
     rule = ('edit operators on every CPython-valid G_ref sentence with <=%d non-default alternatives, at every site: delete/duplicate/swap each bracket; insert each of $ ? ` ! NBSP € between tokens; a backslash '
             'followed by each of a, space, #, backslash, 1 between tokens and at EOF; rename each parameter to each earlier one; damage each string token in 7 ways; bytes/text mixes. Products: every parameter '
-            'list of <=4 items over 11 parameter forms (def / async def / lambda), every argument list of <=3 items over 7 argument forms (call, class, method call), 9 starred forms x 7 contexts, 11 as-patterns, '
+            'list of <=%d items over 11 parameter forms (def / async def / lambda), every argument list of <=%d items over 7 argument forms (call, class, method call), 9 starred forms x 7 contexts, 11 as-patterns, '
             'every (outer, inner, dedent) indentation triple over %d indentation strings, every number-like string of length<=%d over the number alphabet, every f-string body of <=%d lexemes. A case is judged iff '
-            'CPython rejects it with the rule\'s message class; states = distinct (rule, text), transitions = judged cases' % (d, len(INDENTS) if tier == 'thorough' else 11, n, nf))
+            'CPython rejects it with the rule\'s message class; states = distinct (rule, text), transitions = judged cases' % (d, 4 if tier == 'quick' else 5, 3 if tier == 'quick' else 5, len(INDENTS) if tier == 'thorough' else 11, n, nf))
     return C.finish(PROP, tier, seed, t0, total, rule,
                     ['CPython 3.11 (ast.parse, then compile() for duplicate parameters / repeated keywords) decides that a case violates the rule, by message class',
                      'the error "names the rule" at the granularity of the property\'s rule list (table RULES in vp/props/c04.py)'], C.py_version())
